@@ -357,6 +357,12 @@ def do_op(op, env):
             return src.windows_to_tzdb_ids.get(op[2]), None
         if op[1] == "aliases":
             return list(src.aliases.get(op[2], [])), None
+        if op[1] == "aliases_idx":
+            return list(src.aliases[op[2]]), None
+        if op[1] == "aliases_in":
+            return op[2] in src.aliases, None
+        if op[1] == "aliases_len":
+            return [len(src.aliases), len(list(src.aliases))], None
         return src.canonical_id_map.get(op[2]), None
     if k == "cobj":
         # ["cobj", slot, culture name, calendar kind or None, query]: a culture object the calling thread owns and keeps
@@ -371,8 +377,7 @@ def do_op(op, env):
         if ent is None or ent["name"] != op[2]:
             ent = store[keyc] = {"name": op[2], "obj": CultureInfo(op[2]), "cal": None}
         if ent["cal"] != op[3] and op[3] is not None:
-            modname, clsname = _CAL_KINDS[op[3]]
-            ent["obj"].date_time_format.calendar = getattr(importlib.import_module("pyoda_time._compatibility." + modname), clsname)()
+            ent["obj"].date_time_format.calendar = _make_calendar(op[3])
             ent["cal"] = op[3]
         elif ent["cal"] is not None and op[3] is None:
             ent = store[keyc] = {"name": op[2], "obj": CultureInfo(op[2]), "cal": None}  # back to stock: a new object
@@ -401,8 +406,7 @@ def do_op(op, env):
             ci = CultureInfo.get_culture_info(op[1])
         else:
             ci = CultureInfo(op[1])
-            modname, clsname = _CAL_KINDS[op[2]]
-            ci.date_time_format.calendar = getattr(importlib.import_module("pyoda_time._compatibility." + modname), clsname)()
+            ci.date_time_format.calendar = _make_calendar(op[2])
         d = ci.date_time_format
         v = d.get_era_name(1) if op[3] == "era1" else getattr(d, op[3])
         return list(v) if isinstance(v, (list, tuple)) else v, None
@@ -413,12 +417,7 @@ def do_op(op, env):
 
         cname, calkind = (op[3], op[4]) if k == "fmtcust" else (op[1], op[2])
         ci = CultureInfo(cname)
-        modname, clsname = {"gregorian": ("_gregorian_calendar", "GregorianCalendar"), "hijri": ("_hijri_calendar", "HijriCalendar"),
-                            "persian": ("_persian_calendar", "PersianCalendar"), "umalqura": ("_um_al_qura_calendar", "UmAlQuraCalendar"),
-                            "thai": ("_thai_buddhist_calendar", "ThaiBuddhistCalendar")}[calkind]  # fmt: skip
-        import importlib
-
-        ci.date_time_format.calendar = getattr(importlib.import_module("pyoda_time._compatibility." + modname), clsname)()
+        ci.date_time_format.calendar = _make_calendar(calkind)
         if k == "fmtcust":
             return _pattern_cls(op[1]).create(op[2], ci).format(_value(op[1], op[5])), None
         from pyoda_time.calendars import Era
@@ -468,9 +467,24 @@ def _do_text(op, env):
     return ["fail", type(r.exception).__name__], None
 
 
-_CAL_KINDS = {"gregorian": ("_gregorian_calendar", "GregorianCalendar"), "hijri": ("_hijri_calendar", "HijriCalendar"),
+_CAL_KINDS = {"gregorian-us": ("_gregorian_calendar", "GregorianCalendar", "USEnglish"),
+              "gregorian-mefrench": ("_gregorian_calendar", "GregorianCalendar", "MiddleEastFrench"),
+              "gregorian-arabic": ("_gregorian_calendar", "GregorianCalendar", "Arabic"),
+              "gregorian": ("_gregorian_calendar", "GregorianCalendar"), "hijri": ("_hijri_calendar", "HijriCalendar"),
               "persian": ("_persian_calendar", "PersianCalendar"), "umalqura": ("_um_al_qura_calendar", "UmAlQuraCalendar"),
               "thai": ("_thai_buddhist_calendar", "ThaiBuddhistCalendar")}  # fmt: skip
+
+
+def _make_calendar(kind):
+    import importlib
+
+    spec = _CAL_KINDS[kind]
+    cls = getattr(importlib.import_module("pyoda_time._compatibility." + spec[0]), spec[1])
+    if len(spec) > 2:
+        from pyoda_time._compatibility._gregorian_calendar_types import GregorianCalendarTypes
+
+        return cls(getattr(GregorianCalendarTypes, spec[2]))
+    return cls()
 
 
 def _thread_ident():
@@ -775,7 +789,8 @@ def build_pool(master_seed, scale=1.0):
         pool["text"].setdefault(cn, []).append(["fmtcal", rng.choice(["uuuu-MM-dd", "d MMMM yyyy", "yyyy MM dd gg"]), cn, cal, [y, rng.randrange(1, 13), rng.randrange(1, 29)]])
     # customised cultures (same name as a stock culture, different calendar) next to the stock ones
     for cn, kinds in (("th-TH", ["gregorian", "thai"]), ("fa-IR", ["gregorian", "persian"]), ("ar-SA", ["gregorian", "umalqura", "hijri"]),
-                      ("en-US", ["gregorian"]), ("he-IL", ["gregorian"])):  # fmt: skip
+                      ("en-US", ["gregorian", "gregorian-us", "gregorian-arabic"]), ("he-IL", ["gregorian"]),
+                      ("fr-FR", ["gregorian", "gregorian-us", "gregorian-mefrench"]), ("de-DE", ["gregorian-us", "gregorian"])):  # fmt: skip
         for kind in kinds:
             for text in ("d MMMM yyyy gg", "yyyy MM dd gg", "D"):
                 pool["text"].setdefault(cn, []).append(["fmtcust", "localdate", text, cn, kind, rand_value("localdate")])
@@ -796,6 +811,10 @@ def build_pool(master_seed, scale=1.0):
         pool["prov"].append(["winmap", "t2w", zid])
         pool["prov"].append(["winmap", "canon", rng.choice([zid] + TZ_ALIASES.get(zid, []))])
         pool["prov"].append(["winmap", "aliases", zid])
+    for key in ("Europe/London", "No/Such_Zone", "GB", "Asia/Kolkata", "Nope"):
+        pool["prov"].append(["winmap", "aliases_idx", key])
+        pool["prov"].append(["winmap", "aliases_in", key])
+    pool["prov"].append(["winmap", "aliases_len", None])
     for w in ("GMT Standard Time", "Eastern Standard Time", "Tokyo Standard Time", "Nepal Standard Time", "No Such Zone"):
         pool["prov"].append(["winmap", "w2t", w])
     # pattern texts that are rejected: a failed creation must leave nothing behind in the per-culture pattern caches
